@@ -2,7 +2,10 @@
 
 package fastq
 
-import "bytes"
+import (
+	"bytes"
+	"fmt"
+)
 
 // Property-level theorems for /verif/govc, written as client programs of the
 // contracted functions. Never called; verified modularly (each call is
@@ -84,4 +87,40 @@ func thmRoundTrip2(f1, f2 *Fastq) {
 	//@ assert g3 == nil && err3 == 1
 	_, _, _, _, _, _ = g1, err1, g2, err2, g3, err3
 	_, _, _, _, _ = a1, s1, b, a2, s2
+}
+
+//@ theorem C06.crlf
+//@   props C06 C02
+//@   requires f != nil && len(f.Sequence) == len(f.Quals)
+//@   requires forall j int :: 0 <= j && j < len(f.Name) ==> f.Name[j] != 10 && f.Name[j] != 13
+//@   requires forall j int :: 0 <= j && j < len(f.Sequence) ==> f.Sequence[j] != 10 && f.Sequence[j] != 13
+//@   requires forall j int :: 0 <= j && j < len(f.Quals) ==> f.Quals[j] != 10 && f.Quals[j] != 13
+// The same record laid out with CRLF line terminators decodes to the same record (ScanLines drops the CR).
+func thmCRLF(f *Fastq) {
+	buf := &bytes.Buffer{}
+	fmt.Fprintf(buf, "@%s\r\n%s\r\n+\r\n%s\r\n", f.Name, f.Sequence, f.Quals)
+	rd := newReader(buf)
+	a := len(f.Name)
+	s := len(f.Sequence)
+	//@ assert len(buf.out) == 10 + a + 2 * s
+	//@ assert lnT(arr(buf.out), len(buf.out), 0) == 2 + a && lnE(arr(buf.out), len(buf.out), 0) == 1 + a
+	//@ assert lnS(arr(buf.out), len(buf.out), 1) == 3 + a
+	//@ assert buf.out[3+a+s] == 13 && buf.out[4+a+s] == 10
+	//@ assert lnT(arr(buf.out), len(buf.out), 1) == 4 + a + s
+	//@ assert lnE(arr(buf.out), len(buf.out), 1) == 3 + a + s
+	//@ assert lnS(arr(buf.out), len(buf.out), 2) == 5 + a + s
+	//@ assert buf.out[5+a+s] == 43 && buf.out[6+a+s] == 13 && buf.out[7+a+s] == 10
+	//@ assert lnT(arr(buf.out), len(buf.out), 2) == 7 + a + s
+	//@ assert lnE(arr(buf.out), len(buf.out), 2) == 6 + a + s
+	//@ assert lnS(arr(buf.out), len(buf.out), 3) == 8 + a + s
+	//@ assert buf.out[8+a+2*s] == 13 && buf.out[9+a+2*s] == 10
+	//@ assert lnT(arr(buf.out), len(buf.out), 3) == 9 + a + 2 * s
+	//@ assert lnE(arr(buf.out), len(buf.out), 3) == 8 + a + 2 * s
+	//@ assert rd.s.n == 4
+	g, err := rd.read()
+	//@ assert err == nil && g != nil
+	//@ assert len(g.Name) == a && forall j int :: 0 <= j && j < a ==> g.Name[j] == f.Name[j]
+	//@ assert len(g.Sequence) == s && forall j int :: 0 <= j && j < s ==> g.Sequence[j] == f.Sequence[j]
+	//@ assert len(g.Quals) == s && forall j int :: 0 <= j && j < s ==> g.Quals[j] == f.Quals[j]
+	_, _, _, _ = g, err, a, s
 }
